@@ -78,7 +78,7 @@ SolveGoal(prog, s, g) ==
      LET n == s.graph[at] IN
      IF n.sd # 0 THEN
         LET s1 == [s EXCEPT !.stk[n.sd].cycle = TRUE] IN
-        IF Mixed(s1.stk, n.sd) THEN [s |-> Emit(s1, <<"Mixed", g>>), v |-> "E", m |-> INF]
+        IF Mixed(s1.stk, n.sd) THEN [s |-> s1, v |-> "E", m |-> INF]          \* (no hook event: the error value is returned silently)
         ELSE [s |-> Emit(s1, <<"Graph", g, "on", n.sol>>), v |-> n.sol, m |-> n.links]
      ELSE [s |-> Emit(s, <<"Graph", g, "off", n.sol>>), v |-> n.sol, m |-> n.links]
   ELSE
